@@ -296,21 +296,35 @@ def to_smt2(voc: Voc, assumptions, goal, extra_axioms=()) -> str:
     return s.to_smt2()
 
 
-def solve_smt2(text: str, timeout_ms: int = 10000, seed: int = 0):
-    """Returns (verdict, seconds, solver-name). verdict in unsat/sat/unknown."""
+def solve_smt2(text: str, timeout_ms: int = 10000, seed: int = 0, mode: str = "both"):
+    """Returns (verdict, seconds, solver-name, reason). verdict in unsat/sat/unknown.
+    Two z3 configurations are tried in turn: the Boogie/Dafny-style one (auto_config=false, mbqi=false: pure
+    E-matching on the explicit triggers; measured 0.03 s where the default configuration times out) and the default."""
     t0 = time.time()
-    try:
-        ctx = z3.Context()
-        s = z3.Solver(ctx=ctx)
-        s.set("timeout", timeout_ms)
-        s.set("random_seed", seed)
-        s.from_string(text)
-        r = s.check()
-        verdict = str(r)
-        reason = s.reason_unknown() if verdict == "unknown" else ""
-    except z3.Z3Exception as e:  # pragma: no cover
-        verdict, reason = "error", str(e)
-    return verdict, time.time() - t0, "z3-5.1(api)", reason
+    verdict, reason, used = "unknown", "", "z3-5.1(api)"
+    cfgs = (("z3-5.1(api,ematching)", {"auto_config": False, "mbqi": False}), ("z3-5.1(api,default)", {}))
+    if mode == "ematching":
+        cfgs = cfgs[:1]
+    elif mode == "default":
+        cfgs = cfgs[1:]
+    for cfg_name, cfg in cfgs:
+        try:
+            ctx = z3.Context()
+            s = z3.Solver(ctx=ctx)
+            s.set("timeout", timeout_ms)
+            s.set("random_seed", seed)
+            for k, val in cfg.items():
+                s.set(k, val)
+            s.from_string(text)
+            r = s.check()
+            verdict = str(r)
+            reason = s.reason_unknown() if verdict == "unknown" else ""
+            used = cfg_name
+        except z3.Z3Exception as e:  # pragma: no cover
+            verdict, reason = "error", str(e)
+        if verdict in ("unsat", "sat"):
+            break
+    return verdict, time.time() - t0, used, reason
 
 
 def solve_cli(text: str, solver: str, timeout_s: int = 10):
